@@ -76,7 +76,7 @@ RecShapes == {"rec-index", "rec-newindex", "rec-add", "rec-sub", "rec-mul", "rec
 (* shapes whose size is a nesting depth or the length of a chain of operators / suffixes: the parser and the
    compiler are recursive, so these are also explored at sizes far beyond any sensible limit *)
 DeepShapes == {"nest-do", "nest-paren", "nest-table", "nest-func", "nest-if", "unary-chain", "pow-chain", "nest-call", "nest-index"}
-ChainShapes == {"concat-chain", "call-suffix", "index-suffix", "method-suffix", "and-chain", "elseif-chain"}
+ChainShapes == {"concat-chain", "call-suffix", "index-suffix", "method-suffix"}
 SizesOf(s) == Sizes \cup (IF s \in DeepShapes THEN HugeDeep ELSE {}) \cup (IF s \in ChainShapes THEN HugeChain ELSE {})
 
 Init == done = FALSE
